@@ -7,6 +7,8 @@ import (
 	"os"
 	"os/exec"
 	"path/filepath"
+	"regexp"
+	"strconv"
 	"strings"
 	"sync"
 	"time"
@@ -120,6 +122,29 @@ func (g *Gen) smtFor(o *Obligation) string {
 	return b.String()
 }
 
+// Proof hints (/verif/hints/<prop>.json, written only by `govc check -writehints`, never by a normal run): for obligations
+// whose proof depends on the solver's case-split order, the solver and random seed that discharged them. A hint only
+// chooses which attempt is made first; the obligation is still decided by that solver on the query generated from the
+// current source, and a failed hint falls through to the full race.
+type proofHint struct {
+	Solver string  `json:"solver"`
+	Seed   int     `json:"seed"`
+	Secs   float64 `json:"secs"`
+}
+
+var (
+	hints      = map[string]proofHint{}
+	hintsMu    sync.Mutex
+	newHints   = map[string]proofHint{}
+	writeHints bool
+)
+
+func seededSpec(base string, seed int) solverSpec {
+	return solverSpec{fmt.Sprintf("%s(seed %d)", base, seed), func(f string, t int) []string {
+		return []string{base, fmt.Sprintf("-T:%d", t), fmt.Sprintf("smt.random_seed=%d", seed), fmt.Sprintf("sat.random_seed=%d", seed), "-smt2", f}
+	}}
+}
+
 type solverSpec struct {
 	name string
 	args func(file string, timeout int) []string
@@ -209,6 +234,18 @@ func discharge(g *Gen, o *Obligation, workDir string, timeout int, st *solverSta
 		if r.verdict == want {
 			o.Status = "proved"
 			o.Solver = r.solver
+			if writeHints && !o.MustSat {
+				if m := regexp.MustCompile(`^(z3|z3-new)\(seed (\d+)\)$`).FindStringSubmatch(r.solver); m != nil {
+					sd, _ := strconv.Atoi(m[2])
+					hintsMu.Lock()
+					newHints[o.Name] = proofHint{Solver: m[1], Seed: sd, Secs: round3(r.secs)}
+					hintsMu.Unlock()
+				} else if o.Time > 4 && (r.solver == "z3" || r.solver == "z3-new" || r.solver == "cvc5") {
+					hintsMu.Lock()
+					newHints[o.Name] = proofHint{Solver: r.solver, Secs: round3(r.secs)}
+					hintsMu.Unlock()
+				}
+			}
 			st.mu.Lock()
 			st.bySolver[r.solver]++
 			st.mu.Unlock()
@@ -274,10 +311,56 @@ func discharge(g *Gen, o *Obligation, workDir string, timeout int, st *solverSta
 			}})
 		}
 	}
+	seededSpecs := func() []solverSpec {
+		var out []solverSpec
+		seeds := []int{7, 23, 101, 1009, 31337, 424242}
+		if writeHints {
+			seeds = append(seeds, 2, 3, 8, 9, 12, 17, 29, 53, 77, 4099)
+		}
+		for _, seed := range seeds {
+			out = append(out, seededSpec("z3", seed))
+		}
+		return out
+	}
+	// stage 0: the recorded hint, if any
+	hintsMu.Lock()
+	h, hasHint := hints[o.Name]
+	hintsMu.Unlock()
+	if hasHint && !o.MustSat {
+		sp := solverSpec{}
+		for _, c := range solvers {
+			if c.name == h.Solver {
+				sp = c
+			}
+		}
+		if h.Seed != 0 {
+			sp = seededSpec(h.Solver, h.Seed)
+		}
+		if sp.args != nil {
+			t0 := int(h.Secs*20) + 10
+			if t0 > timeout {
+				t0 = timeout
+			}
+			if finish(runSolver(context.Background(), sp, file, t0)) {
+				return
+			}
+			o.Output = ""
+		}
+	}
+	if g.ct.Options["seeds"] != "" && !o.MustSat {
+		// units whose obligations hinge on the order of heap-aliasing case splits: race several seeds from the start
+		stage1 = append(stage1, seededSpecs()...)
+	}
 	done := race(stage1, t1)
 	if !done && timeout > t1 {
 		o.Output = ""
 		done = race(solvers, timeout)
+	}
+	if !done && !o.MustSat && timeout > t1 {
+		// stage 3: the same query under other case-split orders (random seeds): proofs that depend on the order in which
+		// heap-aliasing cases are explored succeed under some seeds and time out under others
+		seeded := seededSpecs()
+		done = race(seeded, timeout)
 	}
 	if !done {
 		o.Status = "unknown"
